@@ -149,3 +149,26 @@ contract(U + "Base.get_root",
     serves=["C10"],
     note="termination needs an acyclic parent chain (not verified: partial correctness)",
 )
+
+# --- U2: parent links -------------------------------------------------------------------------------------
+contract(U + "_set_parent@flat",
+    types=dict(parent_node="ref:Base", items="list[ref:Base?]"),
+    modifies=["*.parent"],
+    ensures={
+        "every_node_reparented": "all(implies(items[k] is not None, items[k].parent == parent_node) for k in range(0, len(items)))",
+    },
+    raises=[],
+    loops={0: dict(invariant={"done_so_far": "all(implies(items[k] is not None, items[k].parent == parent_node) for k in range(0, _k0))"},
+                   types={"item": "ref:Base?"})},
+    serves=["C10"],
+    note="items as a flat sequence of optional nodes (the shape of most match results); nested lists/tuples recurse through the same contract; "
+         "a node that already has a (stale) parent from a discarded attempt must be re-parented too",
+)
+
+contract(U + "Base.__init__",
+    types=dict(self="Base", string="any", parent_cls="any"),
+    modifies=["self.parent"],
+    ensures={"no_parent_yet": "self.parent is None"},
+    raises=[],
+    serves=["C10"],
+)
